@@ -375,6 +375,42 @@ fn verify<H: Sh, E: Sh>(s: &Slot<H, E>) {
     }
 }
 
+/// (block address, what the handle kind's own count accessor reports); None for unique handles.
+fn ident_and_count<H: Sh, E: Sh>(k: &K<H, E>) -> Option<(usize, usize)> {
+    use std::mem::ManuallyDrop;
+    Some(match k {
+        K::Fat(a) => (a.heap_ptr() as usize, Arc::count(a).max(Arc::strong_count(a))),
+        K::FatL(a) => (a.heap_ptr() as usize, Arc::count(a)),
+        K::Thin(t) => (t.heap_ptr() as usize, ThinArc::strong_count(t).max(t.with_arc(|a| Arc::count(a)))),
+        K::Sl(a) => (a.heap_ptr() as usize, Arc::strong_count(a)),
+        K::RawSl(p) => {
+            let a = ManuallyDrop::new(unsafe { Arc::from_raw_slice(*p) });
+            (a.heap_ptr() as usize, Arc::count(&a))
+        }
+        K::One(a) => (a.heap_ptr() as usize, Arc::count(a).max(triomphe::ArcBorrow::strong_count(&a.borrow_arc()))),
+        K::Off(o) => (o.with_arc(|a| a.heap_ptr() as usize), OffsetArc::strong_count(o)),
+        K::Raw(p) => {
+            let a = ManuallyDrop::new(unsafe { Arc::from_raw(*p) });
+            (a.heap_ptr() as usize, Arc::count(&a))
+        }
+        K::Dyn(d) => (d.heap_ptr() as usize, Arc::strong_count(d)),
+        K::Un(u) => (u.as_first().unwrap().with_arc(|a| a.heap_ptr() as usize), ArcUnion::strong_count(u).max(triomphe::ArcUnionBorrow::strong_count(&u.borrow()))),
+        K::Un2(u) => (u.as_second().unwrap().with_arc(|a| a.heap_ptr() as usize), ArcUnion::strong_count(u)),
+        K::Uni(_) => return None,
+    })
+}
+
+/// C04 when quiescent: every count accessor reports the number of owning handles of that block.
+fn check_counts<H: Sh, E: Sh>(bag: &[Slot<H, E>]) {
+    let seen: Vec<(usize, usize)> = bag.iter().filter_map(|s| ident_and_count(&s.k)).collect();
+    for (addr, c) in &seen {
+        let owners = seen.iter().filter(|x| x.0 == *addr).count();
+        if *c != owners {
+            violation("count-mismatch", format!("a count accessor reports {} for the block at {:#x}, which {} owning handle(s) refer to", c, addr, owners));
+        }
+    }
+}
+
 fn release<H: Sh, E: Sh>(s: Slot<H, E>) {
     match s.k {
         K::RawSl(p) => drop(unsafe { Arc::from_raw_slice(p) }),
@@ -766,8 +802,10 @@ fn run<H: Sh, E: Sh>(r: &mut Rng, seed: u64, stats: &mut [u64; 8]) {
             bag.push(s);
         }
     }
+    check_counts(&bag);
     for _ in 0..r.below(9) {
         op(&mut bag, r, stats, &mut allow);
+        check_counts(&bag);
     }
     while !bag.is_empty() {
         let i = r.below(bag.len() as u64) as usize;
